@@ -5,6 +5,7 @@ import (
 
 	"github.com/miekg/dns"
 	"github.com/semihalev/sdns/internal/dnsutil"
+	"github.com/semihalev/sdns/middleware"
 )
 
 // Network and authority errors. DNSSEC-specific sentinels live in
@@ -34,10 +35,14 @@ var (
 	// resolution slot is occupied, which in practice means upstream
 	// authorities have stopped answering and slots are pinned for their
 	// full timeouts. Failing fast keeps the resolver's goroutine count
-	// bounded instead of queueing new arrivals behind dead servers.
+	// bounded instead of queueing new arrivals behind dead servers. The
+	// refusal is request-local (middleware.ErrResolutionCapacity): it is
+	// this server's load shedding, not evidence about the question or its
+	// authorities, so it must not reach the RFC 9520 failure cache.
 	errResolutionCapacity = &dnsutil.EDEError{
 		Code:    dns.ExtendedErrorCodeNoReachableAuthority,
 		Message: "Resolver at in-flight resolution capacity",
+		Err:     middleware.ErrResolutionCapacity,
 	}
 	// errZoneCapacity is destination-scoped shedding: THIS zone's in-flight
 	// quota is exhausted (its authorities are almost certainly not
@@ -45,6 +50,7 @@ var (
 	errZoneCapacity = &dnsutil.EDEError{
 		Code:    dns.ExtendedErrorCodeNoReachableAuthority,
 		Message: "Zone at in-flight lookup capacity",
+		Err:     middleware.ErrResolutionCapacity,
 	}
 )
 
